@@ -150,6 +150,7 @@ func c09ShortSub() *engine.Sub {
 	entries := c09Entries()
 	return &engine.Sub{
 		Name: "all-short-byte-strings",
+		Repeat: true,
 		Rule: "every byte string up to the length bound handed to every entry point that accepts untrusted bytes or text (16 entry points: token / delegation / invocation decoders for sealed bytes, DAG-JSON and readers, the four container readers, policy.FromDagJson + Match, selector.Parse + Select on 33 values, did.Parse + PubKey, command.Parse): no panic; non-trivial = all",
 		Bound: func(t string) string { return fmt.Sprintf("all byte strings of length <=%d x 16 entry points", tierN(t, 2, 3)) },
 		Gen: func(tier string, emit func(any) bool) {
@@ -258,6 +259,7 @@ func c09MutSub() *engine.Sub {
 	}
 	return &engine.Sub{
 		Name: "distance-1-mutants",
+		Repeat: true,
 		Rule: "every single-byte substitution (255 values), deletion, insertion (256 values) and truncation at every offset of 14 valid artefacts (sealed and DAG-JSON tokens, the four container formats, a nested policy in DAG-JSON, two selectors, three did:key strings, a command), handed to the entry points that accept that artefact: no panic; non-trivial = all",
 		Bound: func(t string) string {
 			if t == "thorough" {
@@ -345,6 +347,7 @@ func c09MutSub() *engine.Sub {
 func c09SignedSub() *engine.Sub {
 	return &engine.Sub{
 		Name: "well-signed-malformed-payloads",
+		Repeat: true,
 		Rule: "the payload-mutation alphabet of C10 (every field x drop / null / retype to each kind / int53, int64 and uint64 extremes in time fields, argument values, policy literals and metadata / invalid commands and DIDs incl. every malformed key-material class / nonce lengths / malformed policies), each signed correctly and offered to six decoders; plus every alternative key-material encoding of C16 as the issuer of a signed envelope: no decoder panics; non-trivial = all",
 		Bound: func(t string) string {
 			return "2 kinds x 2 issuer algorithms x every field x 20-40 mutations (pairs over a representative subset in thorough) + 183 issuer key-material encodings"
